@@ -19,7 +19,7 @@ RULE = ('one run = one CONNECT to a drawn host (DNS names, IPv4 and bracketed IP
         'segmented / partially written, or the opt-out is used; distinct = distinct event-log digests')
 PROBES = ['second_host', 'trusted_origin', 'selfsigned_origin', 'wrongname_origin', 'expired_origin', 'insecure_switch', 'opt_out',
           'ip_literal_host', 'ipv6_literal_host', 'cold_cache', 'warm_cache', 'second_request', 'request_body',
-          'client_verified_leaf', 'bad_origin_refused', 'partial_tls_write', 'want_write_retry', 'large_response']
+          'client_verified_leaf', 'bad_origin_refused', 'partial_tls_write', 'want_write_retry', 'large_response', 'long_host_name']
 COMPONENTS = {
     'real': ['proxy/http/proxy/server.py (intercept, wrap_server, wrap_client, certificate generation)',
              'proxy/core/connection/server.py (wrap)', 'proxy/core/connection/client.py (wrap)', 'proxy/common/pki.py + the '
@@ -41,7 +41,9 @@ TIERS = {
 }
 STATE_MEASURE = 'distinct (host kind, certificate situation, insecure, opt-out, cache state) tuples'
 HOSTS = [('secure.example', '10.0.7.1', 'name'), ('other.example', '10.0.7.2', 'name'), ('10.0.7.3', '10.0.7.3', 'ipv4'),
-         ('[2001:db8::7]', '2001:db8::7', 'ipv6')]
+         ('[2001:db8::7]', '2001:db8::7', 'ipv6'),
+         # a valid DNS name longer than the 64 characters an X.509 commonName may hold (such origins carry the name in the SAN)
+         ('a' * 30 + '.' + 'b' * 30 + '.long-host.example', '10.0.7.5', 'longname')]
 _px: Dict[str, Any] = {}
 
 
@@ -68,8 +70,10 @@ def run_one(tape: Any, cfg: Dict[str, Any], forbid: FrozenSet[str] = frozenset()
     with World(tape) as w:
         w.spin_budget_s = 90.0       # real openssl child processes run inside the executor thread
         scen.sched_swarm(w, tape)
-        host, ip, hkind = HOSTS[tape.weighted([4, 2, 2, 1], 'host')]
-        if hkind != 'name' and not g.note('ip_literal_host'):
+        host, ip, hkind = HOSTS[tape.weighted([4, 2, 2, 1, 1], 'host')]
+        if hkind == 'longname':
+            w.probe('long_host_name')
+        if hkind in ('ipv4', 'ipv6') and not g.note('ip_literal_host'):
             host, ip, hkind = HOSTS[0]
         if hkind == 'ipv4':
             w.probe('ip_literal_host')
@@ -78,6 +82,7 @@ def run_one(tape: Any, cfg: Dict[str, Any], forbid: FrozenSet[str] = frozenset()
         bare = host.strip('[]')
         w.dns['secure.example'] = ['10.0.7.1']
         w.dns['other.example'] = ['10.0.7.2']
+        w.dns[HOSTS[4][0]] = ['10.0.7.5']
         situation = ['good', 'selfsigned', 'wrongname', 'expired'][tape.weighted([5, 2, 2, 1], 'cert')]
         w.probe({'good': 'trusted_origin', 'selfsigned': 'selfsigned_origin', 'wrongname': 'wrongname_origin',
                  'expired': 'expired_origin'}[situation])
